@@ -8,6 +8,10 @@ abtem/bloch/dynamical.py StructureFactor.__init__):
   R-NAMING  parity domain: for every letter the mask, as a function of the parities of (h, k, l), is exactly
             the reflection condition of that centering (A: k+l even, B: h+l even, C: h+k even, I: h+k+l even,
             F: all even or all odd, P: everything).
+            Both domains follow python-level lookup tables (plain_eval): the centering parameter rebound through
+            str.lower()/upper(), local or module-level dict / tuple / set literals, membership tests, `table[key]`
+            (a missing key is a run-time KeyError of that arm), `table.get(key)`, unpacking of a constant pair — so the
+            letter -> Miller-index-columns table of a refactored function is compared with the centering translations.
   R-CENTERING-TABLE  the translations by which auto_detect_centering recognises letter X select the same
             reflections as the mask applied for X.
   R-APPLY   StructureFactor.__init__ applies the mask, computed from the same hkl grid and from the stored
@@ -20,9 +24,10 @@ import ast
 from itertools import product
 
 from ..cfg import DataFlow
-from ..model import AnalysisError, NotConstant, call_name, dotted, fold_constant, last_attr, norm_text, walk_no_nested
+from ..model import (AnalysisError, NotConstant, call_name, dotted, fold_constant, last_attr, module_constants, norm_text,
+                     walk_no_nested)
 from ..rules.absint import DomainError, NotConst, PathInterp, const_eval
-from ..rules.shapes import SCALAR, Arr, Const, IntV, ShapeDomain, dim, shape_text
+from ..rules.shapes import NONE, SCALAR, UNKNOWN, Arr, Const, DictV, IntV, ShapeDomain, Tup, dim, shape_text
 from ..rules.versioned import VersionedNormalizer
 
 UTILS = "abtem.bloch.utils"
@@ -58,6 +63,289 @@ def cond_text(allowed: frozenset) -> str:
     return "parity classes " + ",".join("".join("eo"[x] for x in p) for p in sorted(allowed))
 
 
+# ---------------------------------------------------------------------- python-level constants (lookup tables)
+class NotPlain(Exception):
+    """The expression is not made of python constants only."""
+
+
+class PlainLookupError(Exception):
+    """A lookup in a constant table fails at run time (KeyError / IndexError)."""
+
+
+_PLAIN_SCALARS = (str, int, float, complex, bool, type(None))
+_STR_METHODS = ("lower", "upper", "strip", "casefold")
+
+
+def is_plain(v) -> bool:
+    """str / number / None and (nested) list, tuple, frozenset, dict of those.  Exact types only: the parity
+    values PVec / PVal are subclasses of tuple / int and are NOT constants."""
+    t = type(v)
+    if t in _PLAIN_SCALARS:
+        return True
+    if t in (list, tuple, frozenset):
+        return all(is_plain(x) for x in v)
+    if t is dict:
+        return all(is_plain(k) for k in v) and all(is_plain(x) for x in v.values())
+    return False
+
+
+def _freeze(v):
+    if type(v) is set:
+        return frozenset(_freeze(x) for x in v)
+    if type(v) in (list, tuple):
+        return type(v)(_freeze(x) for x in v)
+    if type(v) is dict:
+        return {k: _freeze(x) for k, x in v.items()}
+    return v
+
+
+def plain_env(env: dict) -> dict:
+    return {k: v for k, v in env.items() if is_plain(v)}
+
+
+def plain_eval(e: ast.AST, env: dict):
+    """Python semantics of the constant sub-language used to select a branch through a lookup table: literals,
+    names bound to constants, tuple/list/set/dict displays, dict(...)/tuple/list/set/frozenset/len, str.lower/upper/
+    strip/casefold, dict.get/keys/values, subscripts of constant containers, ==, !=, in, not in, is (not) None,
+    not/and/or, conditional expressions.  NotPlain when the expression leaves this sub-language; PlainLookupError when
+    a lookup raises at run time."""
+    if isinstance(e, ast.Constant):
+        return e.value
+    if isinstance(e, ast.Name):
+        if e.id in env:
+            return env[e.id]
+        raise NotPlain(e.id)
+    if isinstance(e, (ast.Tuple, ast.List, ast.Set)):
+        if any(isinstance(x, ast.Starred) for x in e.elts):
+            raise NotPlain("starred")
+        items = [plain_eval(x, env) for x in e.elts]
+        if isinstance(e, ast.Tuple):
+            return tuple(items)
+        if isinstance(e, ast.List):
+            return items
+        try:
+            return frozenset(items)
+        except TypeError:
+            raise NotPlain("unhashable set element")
+    if isinstance(e, ast.Dict):
+        out = {}
+        for k, v in zip(e.keys, e.values):
+            if k is None:
+                sub = plain_eval(v, env)
+                if type(sub) is not dict:
+                    raise NotPlain("** of a non-dict")
+                out.update(sub)
+                continue
+            kk = plain_eval(k, env)
+            try:
+                out[kk] = plain_eval(v, env)
+            except TypeError:
+                raise NotPlain("unhashable key")
+        return out
+    if isinstance(e, ast.UnaryOp):
+        v = plain_eval(e.operand, env)
+        if isinstance(e.op, ast.Not):
+            return not v
+        if isinstance(e.op, ast.USub) and type(v) in (int, float):
+            return -v
+        raise NotPlain("unary")
+    if isinstance(e, ast.BoolOp):
+        v = None
+        for x in e.values:
+            v = plain_eval(x, env)
+            if isinstance(e.op, ast.And) and not v:
+                return v
+            if isinstance(e.op, ast.Or) and v:
+                return v
+        return v
+    if isinstance(e, ast.IfExp):
+        return plain_eval(e.body if plain_eval(e.test, env) else e.orelse, env)
+    if isinstance(e, ast.Compare):
+        left = plain_eval(e.left, env)
+        for op, c in zip(e.ops, e.comparators):
+            right = plain_eval(c, env)
+            try:
+                if isinstance(op, ast.Eq):
+                    r = left == right
+                elif isinstance(op, ast.NotEq):
+                    r = left != right
+                elif isinstance(op, (ast.In, ast.NotIn)):
+                    if type(right) not in (str, list, tuple, frozenset, dict):
+                        raise NotPlain("membership in a non-container")
+                    r = (left in right) != isinstance(op, ast.NotIn)
+                elif isinstance(op, (ast.Is, ast.IsNot)):
+                    if left is not None and right is not None:
+                        raise NotPlain("identity of non-None constants")
+                    r = (left is right) != isinstance(op, ast.IsNot)
+                else:
+                    raise NotPlain("compare")
+            except TypeError:
+                raise NotPlain("compare")
+            if not r:
+                return False
+            left = right
+        return True
+    if isinstance(e, ast.Subscript):
+        base = plain_eval(e.value, env)
+        if isinstance(e.slice, ast.Slice):
+            if type(base) not in (list, tuple, str):
+                raise NotPlain("slice")
+            parts = [plain_eval(x, env) if x is not None else None for x in (e.slice.lower, e.slice.upper, e.slice.step)]
+            if not all(x is None or type(x) is int for x in parts):
+                raise NotPlain("slice")
+            return base[parts[0]:parts[1]:parts[2]]
+        key = plain_eval(e.slice, env)
+        if type(base) is dict:
+            try:
+                if key in base:
+                    return base[key]
+            except TypeError:
+                raise NotPlain("unhashable key")
+            raise PlainLookupError(f"`{norm_text(e)}` raises KeyError({key!r}): the table has the keys "
+                                   f"{', '.join(repr(k) for k in base)}")
+        if type(base) in (list, tuple, str) and type(key) is int:
+            if -len(base) <= key < len(base):
+                return base[key]
+            raise PlainLookupError(f"`{norm_text(e)}` raises IndexError (index {key}, length {len(base)})")
+        raise NotPlain("subscript")
+    if isinstance(e, ast.Call):
+        if any(isinstance(a, ast.Starred) for a in e.args) or any(k.arg is None for k in e.keywords):
+            raise NotPlain("starred call")
+        f = e.func
+        if isinstance(f, ast.Name) and f.id not in env:
+            args = [plain_eval(a, env) for a in e.args]
+            if f.id == "dict" and len(args) <= 1:
+                out = {}
+                if args:
+                    if type(args[0]) is dict:
+                        out.update(args[0])
+                    elif type(args[0]) in (list, tuple) and all(type(x) in (list, tuple) and len(x) == 2 for x in args[0]):
+                        try:
+                            out.update(dict(args[0]))
+                        except TypeError:
+                            raise NotPlain("unhashable key")
+                    else:
+                        raise NotPlain("dict(...)")
+                for k in e.keywords:
+                    out[k.arg] = plain_eval(k.value, env)
+                return out
+            if e.keywords or len(args) != 1:
+                raise NotPlain(f.id)
+            a = args[0]
+            if f.id == "len" and type(a) in (str, list, tuple, frozenset, dict):
+                return len(a)
+            if f.id in ("tuple", "list") and type(a) in (list, tuple, dict):
+                return (tuple if f.id == "tuple" else list)(a)
+            if f.id in ("set", "frozenset") and type(a) in (list, tuple, frozenset, dict, str):
+                try:
+                    return frozenset(a)
+                except TypeError:
+                    raise NotPlain("unhashable set element")
+            raise NotPlain(f.id)
+        if isinstance(f, ast.Attribute) and not e.keywords:
+            recv = plain_eval(f.value, env)
+            args = [plain_eval(a, env) for a in e.args]
+            if type(recv) is str and f.attr in _STR_METHODS and not args:
+                return getattr(recv, f.attr)()
+            if type(recv) is dict:
+                try:
+                    if f.attr == "get" and len(args) in (1, 2):
+                        return recv.get(args[0], args[1] if len(args) == 2 else None)
+                except TypeError:
+                    raise NotPlain("unhashable key")
+                if f.attr == "keys" and not args:
+                    return tuple(recv)
+                if f.attr == "values" and not args:
+                    return tuple(recv.values())
+            raise NotPlain(f.attr)
+        raise NotPlain("call")
+    raise NotPlain(type(e).__name__)
+
+
+def _to_plain(v):
+    """abstract shape value -> python constant (NotPlain when it is not one)"""
+    if v is NONE:
+        return None
+    if isinstance(v, Const):
+        return v.value
+    if isinstance(v, Tup):
+        items = [_to_plain(i) for i in v.items]
+        return items if v.is_list else tuple(items)
+    if isinstance(v, DictV):
+        return {k: _to_plain(x) for k, x in v.items}
+    raise NotPlain("abstract value")
+
+
+def _from_plain(v):
+    if v is None:
+        return NONE
+    if type(v) in (list, tuple, frozenset):
+        return Tup(tuple(_from_plain(x) for x in v), type(v) is list)
+    if type(v) is dict:
+        return DictV(tuple((k, _from_plain(x)) for k, x in v.items()))
+    return Const(v)
+
+
+class MaskShapeDomain(ShapeDomain):
+    """ShapeDomain that also follows python-level lookup tables: dict / set displays, membership and identity tests
+    over constants, `table[key]` (a missing key is a run-time KeyError, i.e. a DomainError) and `table.get(key[, d])`."""
+
+    def _penv(self, env: dict) -> dict:
+        out = {}
+        for k, v in env.items():
+            try:
+                out[k] = _to_plain(v)
+            except NotPlain:
+                pass
+        return out
+
+    def truth(self, test, env):
+        try:
+            r = plain_eval(test, self._penv(env))
+        except NotPlain:
+            return super().truth(test, env)
+        except PlainLookupError as e:
+            raise DomainError(str(e), test)
+        return r if isinstance(r, bool) else super().truth(test, env)
+
+    def eval(self, n, env):
+        if isinstance(n, (ast.Dict, ast.Set, ast.Subscript, ast.Call, ast.IfExp, ast.Compare)):
+            try:
+                return _from_plain(plain_eval(n, self._penv(env)))
+            except NotPlain:
+                pass
+            except PlainLookupError as e:
+                raise DomainError(str(e), n)
+        if isinstance(n, ast.Dict) and all(k is not None for k in n.keys):
+            try:
+                keys = [plain_eval(k, self._penv(env)) for k in n.keys]
+            except (NotPlain, PlainLookupError):
+                return UNKNOWN
+            return DictV(tuple((k, self.eval(v, env)) for k, v in zip(keys, n.values)))
+        if isinstance(n, ast.Subscript):
+            base = self.eval(n.value, env)
+            if isinstance(base, DictV):
+                k = self.eval(n.slice, env)
+                if not isinstance(k, Const):
+                    return UNKNOWN
+                for kk, v in base.items:
+                    if kk == k.value:
+                        return v
+                raise DomainError(f"`{norm_text(n)}` raises KeyError({k.value!r})", n)
+        if isinstance(n, ast.Call) and isinstance(n.func, ast.Attribute) and n.func.attr == "get" \
+                and len(n.args) in (1, 2) and not n.keywords:
+            base = self.eval(n.func.value, env)
+            if isinstance(base, DictV):
+                k = self.eval(n.args[0], env)
+                if not isinstance(k, Const):
+                    return UNKNOWN
+                for kk, v in base.items:
+                    if kk == k.value:
+                        return v
+                return self.eval(n.args[1], env) if len(n.args) == 2 else NONE
+        return super().eval(n, env)
+
+
 # ---------------------------------------------------------------------- parity domain
 class PVec(tuple):
     """(N, k) integer array known modulo 2, column-wise"""
@@ -86,14 +374,23 @@ class ParityDomain:
 
     def truth(self, test, env):
         try:
-            r = const_eval(test, {k: v for k, v in env.items() if isinstance(v, str)})
-        except NotConst:
+            r = plain_eval(test, plain_env(env))
+        except NotPlain:
             return None
+        except PlainLookupError as e:
+            raise DomainError(str(e), test)
         return r if isinstance(r, bool) else None
 
     def assign(self, target, value, env):
         if isinstance(target, ast.Name):
             env[target.id] = value
+        elif isinstance(target, (ast.Tuple, ast.List)) and type(value) in (list, tuple) \
+                and not any(isinstance(t, ast.Starred) for t in target.elts):
+            # unpacking of a constant sequence (e.g. a pair of column numbers taken from a table)
+            if len(value) != len(target.elts):
+                raise DomainError(f"cannot unpack {len(value)} values into {len(target.elts)} targets", target)
+            for t, v in zip(target.elts, value):
+                self.assign(t, v, env)
         else:
             raise AnalysisError("parity domain: unsupported assignment target")
 
@@ -114,6 +411,13 @@ class ParityDomain:
             if n.id in env:
                 return env[n.id]
             self._bad(n)
+        # python-level constants: lookup tables (dict / set displays), their subscripts, .get, membership tests
+        try:
+            return plain_eval(n, plain_env(env))
+        except NotPlain:
+            pass
+        except PlainLookupError as e:
+            raise DomainError(str(e), n)
         if isinstance(n, ast.List):
             return [self.eval(e, env) for e in n.elts]
         if isinstance(n, ast.Tuple):
@@ -152,7 +456,11 @@ class ParityDomain:
                 sl = n.slice
                 if isinstance(sl, ast.Tuple) and len(sl.elts) == 2 and _full_slice(sl.elts[0]):
                     col = self.eval(sl.elts[1], env) if not isinstance(sl.elts[1], ast.Slice) else None
-                    if isinstance(col, list) and all(isinstance(c, int) for c in col):
+                    if type(col) in (list, tuple) and col and all(type(c) is int for c in col):
+                        for c in col:
+                            if not -len(base) <= c < len(base):
+                                raise DomainError(f"`{norm_text(n)}`: index {c} is out of bounds for the axis of the "
+                                                  f"{len(base)} Miller indices", n)
                         return cls(base[c] for c in col)
                     if isinstance(col, int) and not isinstance(col, bool):
                         return PVal(base[col]) if cls is PVec else PBool(base[col])
@@ -306,13 +614,16 @@ def run(ctx) -> None:
     ctx.require(len(params) == 2, "get_reflection_condition no longer takes (hkl, centering)")
     p_hkl, p_cent = params
     letters = ["P", "I", "F", "A", "B", "C"]
+    tables = _module_tables(repo, grc)  # module-level constant lookup tables the function reads
 
     # ---------------- R-RANK
     N = dim("N")
     rank_bad: set[str] = set()
     for L in letters:
-        dom = ShapeDomain()
-        res = PathInterp(dom).run(grc.node.body, {p_hkl: Arr((N, dim(3))), p_cent: Const(L)})
+        dom = MaskShapeDomain()
+        env0 = {k: _from_plain(v) for k, v in tables.items()}
+        env0.update({p_hkl: Arr((N, dim(3))), p_cent: Const(L)})
+        res = PathInterp(dom).run(grc.node.body, env0)
         ctx.require(len(res) == 1, f"get_reflection_condition: centering {L!r} does not select a single path")
         r = res[0]
         construct = f"{grc.qualname}:arm {L.lower()}"
@@ -320,8 +631,8 @@ def run(ctx) -> None:
         if r.kind == "error":
             rank_bad.add(L)
             ctx.violation("R-RANK", construct, where,
-                          f"centering {L!r}: {r.message}; every call with this centering raises numpy.AxisError / "
-                          "IndexError instead of returning the mask", key_detail="rank")
+                          f"centering {L!r}: {r.message}; every call with this centering raises instead of "
+                          "returning the mask", key_detail="rank")
         elif r.kind == "return":
             v = r.value
             if v is SCALAR or isinstance(v, (Const, IntV)):
@@ -348,10 +659,18 @@ def run(ctx) -> None:
         where = grc.where
         try:
             for p in PARITIES:
-                res = PathInterp(ParityDomain()).run(grc.node.body, {p_hkl: PVec(p), p_cent: L})
+                res = PathInterp(ParityDomain()).run(grc.node.body, {**tables, p_hkl: PVec(p), p_cent: L})
                 ctx.require(len(res) == 1, f"get_reflection_condition: centering {L!r} does not select a single path")
                 r = res[0]
                 if r.kind != "return":
+                    if L not in rank_bad and r.kind == "error":
+                        rank_bad.add(L)
+                        ctx.violation("R-NAMING", f"{grc.qualname}:arm {L.lower()}", grc.loc(r.node) if r.node else where,
+                                      f"centering {L!r}: {r.message}; every call with this centering raises instead of "
+                                      "returning the mask", key_detail="naming")
+                    elif L not in rank_bad:
+                        raise AnalysisError(f"get_reflection_condition arm {L}: the shape domain returns a mask but the "
+                                            f"parity domain ends with {r.kind}")
                     allowed = None
                     break
                 where = grc.loc(r.node)
@@ -380,13 +699,17 @@ def run(ctx) -> None:
                   f"those with {CONDITION_TEXT[L]}", key_detail="naming")
     # case-insensitivity and rejection of unknown letters
     for L in [x.lower() for x in letters]:
-        res = PathInterp(_PathOnly()).run(grc.node.body, {p_hkl: PVec((0, 0, 0)), p_cent: L})
+        res = PathInterp(_PathOnly()).run(grc.node.body, {**tables, p_hkl: PVec((0, 0, 0)), p_cent: L})
+        if len(res) == 1 and res[0].kind == "error" and L.upper() in rank_bad:
+            ctx.info("R-NAMING", f"{grc.qualname}:letter {L!r}", grc.where, "the arm raises (reported above)")
+            continue
         same = len(res) == 1 and res[0].kind == "return"
         ctx.check(same, "R-NAMING", f"{grc.qualname}:letter {L!r}", grc.where,
                   "lower-case letter selects an arm", f"lower-case centering {L!r} is rejected although "
                   "StructureFactor compares centering.lower()", key_detail="case")
-    res = PathInterp(_PathOnly()).run(grc.node.body, {p_hkl: PVec((0, 0, 0)), p_cent: "auto"})
-    ctx.check(len(res) == 1 and res[0].kind == "raise", "R-NAMING", f"{grc.qualname}:unknown letter", grc.where,
+    res = PathInterp(_PathOnly()).run(grc.node.body, {**tables, p_hkl: PVec((0, 0, 0)), p_cent: "auto"})
+    # an unknown key looked up in a table without a membership test raises KeyError: the letter is rejected as well
+    ctx.check(len(res) == 1 and res[0].kind in ("raise", "error"), "R-NAMING", f"{grc.qualname}:unknown letter", grc.where,
               "an unresolved / unknown centering raises", "an unknown centering (e.g. 'auto') silently returns a mask",
               key_detail="unknown")
 
@@ -450,6 +773,51 @@ def run(ctx) -> None:
     if calls_ok:
         _apply_structure_factor(ctx, repo, init, df, cfg, calls[0], grc, params, p_hkl, p_cent)
     _apply_filter(ctx, repo, grc, params, p_hkl, p_cent)
+
+
+_MUTATORS = ("update", "pop", "popitem", "setdefault", "clear", "append", "extend", "remove", "insert", "add", "discard",
+             "sort", "reverse", "__setitem__", "__delitem__")
+
+
+def _module_tables(repo, func) -> dict:
+    """Module-level constants (lookup tables) the function reads: names loaded in the function that are neither
+    parameters nor assigned in it and that the module binds exactly once to a foldable literal.  A table that is
+    rebound or mutated anywhere in the module has no single value: AnalysisError."""
+    mod = repo.module(UTILS)
+    local = set(func.params)
+    loaded = set()
+    for n in ast.walk(func.node):
+        if isinstance(n, ast.Name):
+            (loaded if isinstance(n.ctx, ast.Load) else local).add(n.id)
+    wanted = loaded - local
+    consts = module_constants(mod)
+    out = {}
+    for name in sorted(wanted):
+        if name not in consts:
+            continue
+        v = _freeze(consts[name])
+        if not is_plain(v) or type(v) in _PLAIN_SCALARS and type(v) is not str:
+            continue
+        binds = 0
+        for st in mod.tree.body:
+            for t in ast.walk(st) if not isinstance(st, (ast.FunctionDef, ast.AsyncFunctionDef, ast.ClassDef)) else ():
+                if isinstance(t, ast.Name) and t.id == name and isinstance(t.ctx, (ast.Store, ast.Del)):
+                    binds += 1
+        for n in ast.walk(mod.tree):
+            if isinstance(n, (ast.Global, ast.Nonlocal)) and name in n.names:
+                binds += 1
+            if isinstance(n, (ast.Subscript, ast.Attribute)) and isinstance(n.ctx, (ast.Store, ast.Del)) \
+                    and isinstance(n.value, ast.Name) and n.value.id == name:
+                binds += 1
+            if isinstance(n, ast.Call) and isinstance(n.func, ast.Attribute) and n.func.attr in _MUTATORS \
+                    and isinstance(n.func.value, ast.Name) and n.func.value.id == name:
+                binds += 1
+            if isinstance(n, ast.AugAssign) and isinstance(n.target, ast.Name) and n.target.id == name:
+                binds += 1
+        if binds != 1:
+            raise AnalysisError(f"{func.qualname}: the module-level table `{name}` is rebound or mutated in the module")
+        out[name] = v
+    return out
 
 
 def _apply_structure_factor(ctx, repo, init, df, cfg, call, grc, params, p_hkl, p_cent) -> None:
